@@ -59,6 +59,9 @@ def sub_obs(sg, n, maxd):
             f"{ints(sg.nodes[i].n_plateaus for i in range(n))} | {enc(sg.density)} | {ints(enc(v) for v in maxd)}")
 
 
+BOOST = int(os.environ.get("VERIF_BOOST", "1"))
+
+
 def run(rng, tier, res=None, want=("arcs", "pdf", "cluster")):
     global TINY, ONE, NEGTOP
     load_opfython()
@@ -67,7 +70,7 @@ def run(rng, tier, res=None, want=("arcs", "pdf", "cluster")):
     from opfython.models.unsupervised import UnsupervisedOPF
     TINY, ONE, NEGTOP = enc(0.00001), enc(1.0), enc(-FLOAT_MAX)
     res = res or Result("knn")
-    scale = 1 if tier == "quick" else 12
+    scale = BOOST if tier == "quick" else 12
     lines, obs, metas = [], [], []
 
     def viol(prop, msgs, meta):
